@@ -22,6 +22,9 @@ import time
 HERE = os.path.dirname(os.path.abspath(__file__))
 HARNESS = os.path.join(HERE, "harness")
 REPO = os.environ.get("VERIF_REPO", "/repo")
+# evidence and replay files belong to runs against /repo itself; a sensitivity run on a scratch
+# copy (VERIF_REPO) writes them to a scratch directory instead
+OUT = HERE if REPO == "/repo" else os.path.join("/dev/shm" if os.path.isdir("/dev/shm") else "/tmp", "verif-sensitivity")
 sys.path.insert(0, HERE)
 from checks import CHECKS  # noqa: E402
 
@@ -131,8 +134,8 @@ def write_evidence(pid, cfg, tier, seed, ev, wall, nviol, shards, notes):
         cov["notes"] = notes
     out = dict(property_id=pid, tier=tier, seed=int(seed), level=cfg["level"], coverage=cov,
                assumptions=cfg.get("assumptions", []), wall_s=round(wall, 2), violations=int(nviol))
-    os.makedirs(os.path.join(HERE, "evidence"), exist_ok=True)
-    p = os.path.join(HERE, "evidence", pid + ".json")
+    os.makedirs(os.path.join(OUT, "evidence"), exist_ok=True)
+    p = os.path.join(OUT, "evidence", pid + ".json")
     json.dump(out, open(p + ".tmp", "w"), indent=1, default=str)
     os.replace(p + ".tmp", p)
 
@@ -163,7 +166,7 @@ def run_check(pid, tier, seed, replay=None):
         fragdir = os.path.join(work, "frags")
         os.makedirs(fragdir)
         if not replay:
-            for old in glob.glob(os.path.join(HERE, "replays", pid, tier + "-*")):
+            for old in glob.glob(os.path.join(OUT, "replays", pid, tier + "-*")):
                 os.remove(old)
         procs = []
         for k in range(shards):
@@ -214,7 +217,7 @@ def run_check(pid, tier, seed, replay=None):
                 continue
             if "--- FAIL" in log or "panic:" in log or "fatal error:" in log:
                 fails = glob.glob(os.path.join(sd, "testdata", "rapid", "**", "*.fail"), recursive=True)
-                rdir = os.path.join(HERE, "replays", pid)
+                rdir = os.path.join(OUT, "replays", pid)
                 os.makedirs(rdir, exist_ok=True)
                 base = os.path.join(rdir, "%s-seed%s-shard%d" % (tier, seed, k))
                 open(base + ".log", "w").write(log[-200000:])
